@@ -486,8 +486,10 @@ bool var_opt_union<T, A>::detect_and_handle_subcase_of_pseudo_exact(var_opt_sket
     return false;
   } else {
 
-    // explicitly enforce rule that items in H should not be lighter than the sketch's tau
-    const bool anti_condition4 = there_exist_unmarked_h_items_lighter_than_target(gadget_.get_tau());
+    // explicitly enforce rule that items in H should not be lighter than the sketch's tau.
+    // The gadget is in exact mode here (r_ == 0), so its own tau is NaN and would make the test vacuous;
+    // the tau of the result is the common tau of the marked items, i.e. outer tau
+    const bool anti_condition4 = there_exist_unmarked_h_items_lighter_than_target(get_outer_tau());
     if (anti_condition4) {
       return false;
     } else {
